@@ -33,6 +33,7 @@ type plScenario struct {
 	Stop        string // "graceful" | "graceful-concurrent" | "deadline" | "deadline-late-afterfunc"
 	Unbuffered  float64
 	Abandoned   bool // with deadline stops: some unbuffered channels nobody reads
+	ShortCtx    bool // producers call IngestRows with contexts that expire while the buffer is full (stalled store)
 	LazyRecv    bool // some unbuffered channels get their receiver only after a delay (graceful stops only)
 	Flushers    int
 }
@@ -152,7 +153,11 @@ func runPlScenario(r Rng, sc plScenario) *plRun {
 		if !b.abandon {
 			obs.register(b)
 		}
-		ctx, cancel := context.WithTimeout(context.Background(), 3*time.Second)
+		to := 3 * time.Second
+		if sc.ShortCtx {
+			to = time.Duration(10+r.IntN(25)) * time.Millisecond
+		}
+		ctx, cancel := context.WithTimeout(context.Background(), to)
 		ret := eng.IngestRows(ctx, rows, b.ch)
 		b.mu.Lock()
 		b.ret = ret
@@ -205,7 +210,11 @@ func runPlScenario(r Rng, sc plScenario) *plRun {
 	switch sc.Stop {
 	case "graceful":
 		if g != nil {
-			go func() { time.Sleep(10 * time.Millisecond); g.release() }()
+			d := 10 * time.Millisecond
+			if sc.ShortCtx {
+				d = 90 * time.Millisecond // long enough for blocked producers' contexts to expire
+			}
+			go func() { time.Sleep(d); g.release() }()
 		}
 		prodWG.Wait()
 		ctx, cancel := context.WithTimeout(context.Background(), 20*time.Second)
@@ -268,6 +277,13 @@ func genPlScenario(r Rng, which string) plScenario {
 		if sc.Abandoned {
 			sc.Unbuffered = 0.4
 		}
+	}
+	if sc.Store == "stall" && sc.Stop == "graceful" && r.Chance(0.5) {
+		sc.ShortCtx = true
+		sc.IngestCap = 1 + r.IntN(2)
+		sc.MaxRows = 1
+		sc.Producers = 3 + r.IntN(2)
+		sc.PerProducer = 3 + r.IntN(4)
 	}
 	if which == "C07" && sc.Stop != "deadline" && r.Chance(0.5) {
 		sc.LazyRecv = true
@@ -423,6 +439,16 @@ func checkRun(c *ctx, run *plRun, which string) {
 		}
 		bound := sc.IngestCap + 4*sc.MaxRows
 		c.r.Hit(fmt.Sprintf("backlog.max.%d", min(maxBacklog, 20)))
+		// the same bound at the API: batches IngestRows accepted (returned nil) and never answered
+		silent := 0
+		for _, b := range run.batches {
+			if b.ret == nil && !b.abandon && len(b.values()) == 0 {
+				silent++
+			}
+		}
+		if run.stopErr == nil && silent > 0 {
+			c.r.Add(Finding{Kind: "violation", Check: "accepted-without-queueing", Detail: fmt.Sprintf("IngestRows returned nil for %d batches that were never answered although Stop returned nil: they were 'accepted' beyond the bounded backlog (not queued at all)", silent), Replay: run.replay()})
+		}
 		if maxBacklog > bound {
 			c.r.Add(Finding{Kind: "violation", Check: "backlog-bound", Detail: fmt.Sprintf("%d accepted batches were unanswered at once; bound IngestBufferSize + 4*MaxBufferedRows = %d", maxBacklog, bound), Replay: run.replay()})
 		}
